@@ -16,7 +16,8 @@ FILES = ["a.py", "b.js", "src/a.py", "src/c.ts", "src/deep/e.java", "lib/f.c", "
          "tests/t.py", ".hid/x.py", "notes.txt", "src/m.py", "lib/b.js"]
 WEIRD = ['we"ird.py', "back\\slash.py", "café.py", "sp ace.js"]
 DIR_MOVES = [("src", "pkg"), ("lib", "src/lib"), ("src/deep", "deep"), ("pkg", "src"), ("src", "tests")]
-SHAPES = ("one2", "one16", "one31", "one61", "multi", "nested", "strings", "enc_latin1", "multi_ws", "empty", "one30")
+SHAPES = ("one2", "one16", "one31", "one61", "multi", "nested", "strings", "enc_latin1", "multi_ws", "empty", "one30",
+          "big", "uni", "twins", "nocl", "bare31")
 PATTERNS = ["src", "lib/", "*.js", "src/deep", "src/*", "a.py", "K.cs", "deep/", "*.ts", "lib/f.c", "pkg", "b.js", "lib/*"]
 OTHER_VERSIONS = ["0.0.1", "0.18.0", "0.18.10", "9.9.9", "", "0.18.1 "]
 
@@ -86,7 +87,8 @@ def random_op(rng, files, weights):
     if k == "edit":
         # a small in-place edit anywhere in the file (often far from its start), same path
         kind = rng.choice(("dup_line", "lost_line", "swap_lines", "flip_byte"))
-        arg = rng.randrange(0, 400)
+        # line index modulo the file's line count: small negative values = the last lines
+        arg = rng.choice((-1, -2, -3, -5)) if rng.random() < 0.4 else rng.randrange(0, 400)
         if kind == "flip_byte":
             arg = [rng.randrange(0, 4000), rng.choice((0x20, 0x41, 0x7a))]
         return {"op": "corrupt", "path": rng.choice(files), "kind": kind, "arg": arg}
@@ -202,6 +204,7 @@ def gen(i, R, tier, model_only_patterns=False):
     swarm = {
         "set_policy": sw.choice(("mixed", "shuffled", "insertion", "reversed")),
         "walk_policy": sw.choice(("shuffled", "shuffled", "reversed", "sorted")),
+        "dot_root": sw.random() < 0.12,
         "weird_names": sw.random() < 0.25,
         "cache_faults": sw.random() < 0.2,
         "mode": "random",
